@@ -28,6 +28,11 @@ pub struct AmountCase {
     pub status: Vec<StatusFields>,
     pub cancel: bool,
     pub intermediates: usize,
+    /// the connection drops after the reservation's status information (before its completion): the client retries on
+    /// a new connection and the terminal issues the next receipt number; commit must use the receipt of the
+    /// reservation that completed
+    #[serde(default)]
+    pub retried_reservation: bool,
 }
 
 fn bmp60(t: &Table, token: &str) -> Val {
@@ -40,7 +45,14 @@ pub fn check_amounts(c: &AmountCase) -> CheckResult {
     let t = crate::table();
     let v = |kind: &str, detail: String| Err(Violation::new("amounts", format!("C08 kind={kind}"), detail, input.clone()));
     let mut sc = Scenario { cfg: CfgSpec { amount: c.pre_auth, currency: c.currency, password: c.password, max: 1, ..Default::default() }, ..Default::default() };
-    sc.sim.receipts = vec![c.receipt];
+    let receipt2 = c.receipt % 9999 + 1;
+    let live_receipt = if c.retried_reservation { receipt2 } else { c.receipt };
+    sc.sim.receipts = vec![c.receipt, receipt2];
+    if c.retried_reservation {
+        // reply script of a reservation: ack, intermediates.., status information, completion
+        let pos = 1 + c.intermediates + 1;
+        sc.plan = vec![PlanEntry { kind: Kind::Reservation, occ: Some(0), from_start: false, directive: Directive { fault: Some((FaultKind::Close, pos)), ..Default::default() } }];
+    }
     sc.sim.intermediates = c.intermediates;
     sc.sim.reversal_status = c
         .status
@@ -66,9 +78,11 @@ pub fn check_amounts(c: &AmountCase) -> CheckResult {
     // 1. the reservation
     let r0 = decoded_requests(&tr.world, tr.calls[0].req_from, tr.calls[0].req_to);
     let want_res = make(&t, "Reservation", &[("amount", opt_u(Some(c.pre_auth))), ("currency", opt_u(Some(c.currency))), ("payment_type", opt_u(Some(0x40))), ("tlv", Val::Some(Box::new(bmp60(&t, &c.token))))]);
-    match r0.first() {
-        Some((Kind::Reservation, got, _, _)) if *got == want_res && r0.len() == 1 => {}
-        other => return v("reservation-request", format!("begin sent {}\n  expected exactly {}", other.map(|o| render(&o.1)).unwrap_or("nothing".into()), render(&want_res))),
+    let reservations: Vec<&(Kind, Val, usize, Vec<u8>)> = r0.iter().filter(|r| r.0 == Kind::Reservation).collect();
+    let others = r0.iter().filter(|r| !matches!(r.0, Kind::Reservation | Kind::Registration | Kind::SystemInfo)).count();
+    let expected_n = if c.retried_reservation { 2 } else { 1 };
+    if reservations.len() != expected_n || others != 0 || reservations.iter().any(|r| r.1 != want_res) || (!c.retried_reservation && r0.len() != 1) {
+        return v("reservation-request", format!("begin sent [{}]\n  expected {expected_n} x exactly {}", r0.iter().map(|o| format!("{:?} {}", o.0, render(&o.1))).collect::<Vec<_>>().join("; "), render(&want_res)));
     }
     if !matches!(tr.calls[0].result, Some(Ok(_))) {
         return v("begin-failed", format!("begin returned {:?}", tr.calls[0].result));
@@ -76,7 +90,7 @@ pub fn check_amounts(c: &AmountCase) -> CheckResult {
     // 2. commit / cancel
     let r1 = decoded_requests(&tr.world, tr.calls[1].req_from, tr.calls[1].req_to);
     if c.cancel {
-        let want = make(&t, "PreAuthReversal", &[("payment_type", opt_u(Some(0x40))), ("currency", opt_u(Some(c.currency))), ("receipt_no", opt_u(Some(c.receipt)))]);
+        let want = make(&t, "PreAuthReversal", &[("payment_type", opt_u(Some(0x40))), ("currency", opt_u(Some(c.currency))), ("receipt_no", opt_u(Some(live_receipt)))]);
         match r1.first() {
             Some((Kind::PreAuthReversal, got, _, _)) if *got == want => {}
             other => return v("cancel-request", format!("cancel sent {}\n  expected {}", other.map(|o| render(&o.1)).unwrap_or("nothing".into()), render(&want))),
@@ -84,11 +98,11 @@ pub fn check_amounts(c: &AmountCase) -> CheckResult {
         return Ok(());
     }
     let release = (c.pre_auth as u128).saturating_sub(c.final_amount as u128) as u64;
-    let want = make(&t, "PartialReversal", &[("receipt_no", opt_u(Some(c.receipt))), ("amount", opt_u(Some(release))), ("payment_type", opt_u(Some(0x40))), ("currency", opt_u(Some(c.currency))), ("tlv", Val::Some(Box::new(bmp60(&t, &c.token))))]);
+    let want = make(&t, "PartialReversal", &[("receipt_no", opt_u(Some(live_receipt))), ("amount", opt_u(Some(release))), ("payment_type", opt_u(Some(0x40))), ("currency", opt_u(Some(c.currency))), ("tlv", Val::Some(Box::new(bmp60(&t, &c.token))))]);
     match r1.first() {
         Some((Kind::PartialReversal, got, _, _)) if *got == want => {}
         Some((_, got, _, _)) => {
-            let kind = if get_u(got, "amount") != Some(release) { "released-amount" } else { "commit-request" };
+            let kind = if get_u(got, "amount") != Some(release) { "released-amount" } else if get_u(got, "receipt_no") != Some(live_receipt) { "wrong-receipt" } else { "commit-request" };
             return v(kind, format!("pre-authorised {} final {}: commit sent {}\n  expected {} (release max(P - a, 0) = {release})", c.pre_auth, c.final_amount, render(got), render(&want)));
         }
         None => return v("commit-request", "commit sent nothing".into()),
@@ -96,8 +110,8 @@ pub fn check_amounts(c: &AmountCase) -> CheckResult {
     // the terminal's ledger: booked = min(a, P)
     let booked = tr.world.sim.lock().unwrap().booked.clone();
     let want_booked = c.final_amount.min(c.pre_auth);
-    if booked != vec![(c.receipt, want_booked)] {
-        return v("ledger", format!("terminal booked {:?}; expected receipt {} with {}", booked, c.receipt, want_booked));
+    if booked != vec![(live_receipt, want_booked)] {
+        return v("ledger", format!("terminal booked {:?}; expected receipt {} with {}", booked, live_receipt, want_booked));
     }
     // 3. the summary reproduces the last status information
     let last = c.status.last().unwrap();
@@ -158,8 +172,9 @@ pub fn case_strategy() -> impl Strategy<Value = AmountCase> {
         proptest::collection::vec(status, 1..=3),
         prop::bool::weighted(0.15),
         0usize..3,
+        prop::bool::weighted(0.1),
     )
-        .prop_map(|(pre_auth, (sel, rnd), currency, password, token, receipt, status, cancel, intermediates)| {
+        .prop_map(|(pre_auth, (sel, rnd), currency, password, token, receipt, status, cancel, intermediates, retried_reservation)| {
             let final_amount = match sel % 12 {
                 0 => 0,
                 1 => pre_auth.saturating_sub(1),
@@ -174,7 +189,7 @@ pub fn case_strategy() -> impl Strategy<Value = AmountCase> {
                 10 => pre_auth.saturating_add(rnd % 1000),
                 _ => rnd,
             };
-            AmountCase { pre_auth, final_amount, currency, password, token, receipt, status, cancel, intermediates }
+            AmountCase { pre_auth, final_amount, currency, password, token, receipt, status, cancel, intermediates, retried_reservation }
         })
 }
 
@@ -191,6 +206,9 @@ pub fn run(tier: Tier) -> i32 {
             st.class(if c.cancel { "cancel" } else if c.final_amount > c.pre_auth { "final>pre-auth" } else if c.final_amount == c.pre_auth { "final==pre-auth" } else if c.final_amount == 0 { "final==0" } else { "partial-release" });
             if c.status.len() > 1 {
                 st.class("several-status-informations");
+            }
+            if c.retried_reservation {
+                st.class("reservation-retried-after-lost-connection");
             }
             if st.samples.len() < 1 && partial && !c.cancel {
                 st.sample(|| serde_json::to_value(c).unwrap());
